@@ -17,7 +17,8 @@
    of every instruction = its arithmetic meaning) is NOT proved here. *)
 From Coq Require Import ZArith NArith List Bool.
 From Mpc Require Import Gen.Consts Gen.Thresholds Lang.Mini Lang.Ssa Lang.Lower Lang.LowerProof
-     Lang.RunC03 Lang.RunC03Proof Lang.CircGen Lang.CircGenProof Lang.CircGenCompose.
+     Lang.RunC03 Lang.RunC03Proof Lang.CircGen Lang.CircGenProof Lang.CircGenCompose
+     Lang.CircEmbed Lang.CircEmbedProof.
 Import ListNotations.
 From Mpc Require Gen.State Base.StateExpected Base.StateCheck Base.StatePkgs.
 
@@ -143,7 +144,10 @@ Print Assumptions C03_store_frame.
    COVERED: every opcode for which Program.Circuit has a case and that can
    occur without native circuit files — the arithmetic, bitwise, comparison,
    logical, move / shift / slice / amov / index / phi opcodes, concat, bts, btc
-   (peephole.go), builtin (circuits.Hamming), ret; the four divisions with a
+   (peephole.go), builtin (circuits.Hamming), circ (the embedding of a parsed
+   native circuit file, Lang/CircEmbed.v: argument flattening and zero padding,
+   allocation of result and intermediate wires, renumbering of the sub-circuit's
+   gates — for EVERY sub-circuit meeting circ_ok), ret; the four divisions with a
    zero divisor, operands of any two widths and (unsigned) a narrower result
    (Lang/CircGenDivProof.v re-proves NewUDivider / NewIDivider for circuitgen's
    calling convention: nil quotient or remainder).  cg_wf's side conditions are
@@ -151,9 +155,13 @@ Print Assumptions C03_store_frame.
    an adder / subtractor / multiplier / bitwise operation, 1-bit results of
    comparisons, ...) and the conditions under which the Go code itself returns
    an error or indexes out of range (slice / amov bounds, NewMUX widths, ...).
-   NOT modelled: circ (native circuit files: Lang/Ssa.v has no term for an
-   embedded circuit with several results); decodes to Ounsupported, which
-   cg_wf rejects.  Targets: Yao (utils.NewParams) everything; GMW everything but
+   circ: an instruction of Lang/Ssa.v defines one value, the listing line
+   "circ a.. r0 .. rm" several: Ocirc defines the concatenation of all results
+   (the wires circOut of Program.Circuit) and the harness lets one slice
+   instruction per r_j follow (slice emits no gate).  The sub-circuit is
+   instr.Circ as it stands in memory after the real circuit.Parse.
+   NOT modelled: the floating point opcodes and builtins other than Hamming
+   (decode to Ounsupported, which cg_wf rejects).  Targets: Yao (utils.NewParams) everything; GMW everything but
    division (the Goldschmidt divider is not exact: C07 findings F31-F33).
    The passes after circuitgen are C09's. *)
 
@@ -170,7 +178,11 @@ Print Assumptions C03_store_frame.
    consistent valuation.  Opcodes covered: iadd uadd isub usub imult umult idiv
    udiv imod umod (zero divisor included) band bor bxor bclr ilt ult ile ule igt
    ugt ige uge eq neq and or not mov smov lshift rshift srshift slice amov index
-   phi concat bts btc builtin(hamming), and ret. *)
+   phi concat bts btc builtin(hamming), circ (any number of circ steps, every
+   sub-circuit meeting circ_ok, any number and widths of arguments and results;
+   its meaning is Circuit.eval_plain of the sub-circuit — the model of
+   circuit.Circuit.Compute that C01 is stated about — on the concatenated zero
+   padded arguments: C03_circ_meaning), and ret. *)
 Theorem C03_circuitgen_correct : forall p inp,
   cg_wf p = true ->
   eval_circuit (circuit_of_ssa p) (input_bits (sp_inputs p) inp) = eval_ssa p inp.
@@ -214,7 +226,9 @@ Print Assumptions C03_circuitgen_correct_any_threshold.
 
 (* Source to gates: for every typed Mini program p whose lowering satisfies
    cg_wf and every input vector, the generated circuit computes the outputs of
-   the reference interpreter. *)
+   the reference interpreter.  (Mini, the documented core of MPCL, has no native
+   call, so the lowering never emits circ; programs with circ steps are covered
+   by C03_circuitgen_correct and the C03_circ_* theorems below.) *)
 Theorem C03_compile_correct : forall p inp,
   typed p -> cg_wf (lower p) = true ->
   eval_circuit (circuit_of_ssa (lower p)) (input_bits (sp_inputs (lower p)) inp) = exec_mini p inp.
@@ -222,7 +236,7 @@ Proof. exact compile_correct. Qed.
 Print Assumptions C03_compile_correct.
 
 (* What cg_wf leaves out, as a statement: only the opcodes without a model
-   (circ, a builtin other than Hamming, floating point: they decode to Ounsupported). *)
+   (a builtin other than Hamming, floating point: they decode to Ounsupported). *)
 Theorem C03_cg_wf_excludes : forall i, cg_wf_instr i = true -> i_op i <> Ounsupported.
 Proof. exact cg_wf_instr_opcodes. Qed.
 Print Assumptions C03_cg_wf_excludes.
@@ -266,6 +280,117 @@ Theorem C03_cg_example_gmw :
   = eval_ssa ex_ssa_gmw [200; 249; 0x5a]%N.
 Proof. exact (conj (proj1 ex_ssa_gmw_wf) (conj (proj2 ex_ssa_gmw_wf) (proj1 ex_ssa_gmw_runs))). Qed.
 Print Assumptions C03_cg_example_gmw.
+
+(* ---------------------------------------------------------------------------
+   circ — native circuit files (compiler/ssa/circuitgen.go "case Circ:").
+   The meaning Lang/Ssa.v gives the instruction, for every value list, every
+   sub-circuit, every argument list: the sub-circuit evaluated as by
+   Circuit.Compute (Circuit.eval_plain) on the bits of argument k (brought to its
+   declared width like every operand) zero padded to the width of the circuit's
+   input k, all concatenated; the result wires read as one number. *)
+Theorem C03_circ_meaning : forall vs ins c args out aux,
+  eval_instr vs (mkInstr (Ocirc ins c) args out aux)
+  = bits_val (Mpc.Circuit.Circuit.eval_plain c (circ_input vs args ins)).
+Proof. exact circ_instr_meaning. Qed.
+Print Assumptions C03_circ_meaning.
+
+(* What cg_wf demands of a circ instruction, for every instruction: one argument
+   per input of the sub-circuit and none wider than it, the input widths add up
+   to the sub-circuit's input wires, the result has its output wires, and
+   circ_ok: Circuit.wf (ids in range, gate inputs assigned before use, outputs
+   assigned, no gate writes an input wire) + no wire written twice (the Go
+   compiler panics there) + no output wire that is an input wire. *)
+Theorem C03_cg_wf_circ : forall ins c args out aux,
+  cg_wf_instr (mkInstr (Ocirc ins c) args out aux) = true <->
+  args_fit args ins = true /\ tot ins = Mpc.Circuit.Circuit.ninputs c /\
+  s_bits out = Mpc.Circuit.Circuit.noutputs c /\ circ_ok c = true.
+Proof. exact cg_wf_circ. Qed.
+Print Assumptions C03_cg_wf_circ.
+
+(* The embedding by itself, in the vocabulary of the builder theorems of C07: for
+   EVERY sub-circuit c meeting circ_ok, every list ws of argument wire vectors
+   that fit the input widths ins, either target: from every well-formed compiler
+   state the embedding returns ob = noutputs c result wires and only appends
+   gates, and in EVERY wire valuation consistent with the gate list the result
+   wires carry Circuit.eval_plain c of the values of the argument wires, each
+   argument followed by zeros up to its input width.  Unbounded: induction over
+   the sub-circuit's gate list. *)
+Theorem C03_circ_embed_semantics : forall t ins ob c ws,
+  circ_ok c = true -> Forall2 (fun w n => (length w <= n)%nat) ws ins ->
+  tot ins = Mpc.Circuit.Circuit.ninputs c -> ob = Mpc.Circuit.Circuit.noutputs c ->
+  Mpc.Builders.EmitProof.okp t (embed_circ ins ob c ws) (fun o => length o = ob)
+      (fun o e => map e o = Mpc.Circuit.Circuit.eval_plain c (flat_bits e ws ins)).
+Proof. exact okp_embed_circ. Qed.
+Print Assumptions C03_circ_embed_semantics.
+
+(* ... and it keeps the enclosing gate list single assignment and defined before
+   use (wfst), defines every result wire, and leaves every wire defined before
+   defined: for every compiler state, every sub-circuit meeting circ_ok, every
+   list of defined argument wires that fit. *)
+Theorem C03_circ_embed_structure : forall ninp ins ob c ws s,
+  Mpc.Builders.StructProof.wfst ninp s -> circ_ok c = true ->
+  Forall2 (fun w n => Forall (Mpc.Builders.StructProof.defd ninp s) w /\ (length w <= n)%nat) ws ins ->
+  tot ins = Mpc.Circuit.Circuit.ninputs c -> ob = Mpc.Circuit.Circuit.noutputs c ->
+  Mpc.Builders.StructProof.oks (ninp := ninp) (embed_circ ins ob c ws) s
+    (fun o s' => after ninp s s' /\ Forall (Mpc.Builders.StructProof.defd ninp s') o).
+Proof. exact embed_circ_s. Qed.
+Print Assumptions C03_circ_embed_structure.
+
+(* End to end for a call by itself: for EVERY sub-circuit c meeting circ_ok with
+   at least one input wire, every split ins of its input wires into arguments
+   and every input vector, the program "return native(c, x0, .., xk)" compiles
+   to a circuit that computes exactly Circuit.eval_plain c on the input bits. *)
+Theorem C03_circ_call_correct : forall ins c inp,
+  circ_ok c = true -> tot ins = Mpc.Circuit.Circuit.ninputs c -> (1 <= Mpc.Circuit.Circuit.ninputs c)%nat ->
+  eval_circuit (circuit_of_ssa (circ_call ins c)) (input_bits ins inp)
+  = [bits_val (Mpc.Circuit.Circuit.eval_plain c (input_bits ins inp))].
+Proof. exact circ_call_correct. Qed.
+Print Assumptions C03_circ_call_correct.
+
+(* Non-vacuity: a 2-bit adder with carry (all five gate kinds) meets circ_ok; a
+   program calling it with a one-wire constant for its 2-bit input (zero
+   padding), taking its two results apart and adding to one of them meets cg_wf
+   for both targets ... *)
+Theorem C03_circ_example_hypotheses :
+  circ_ok ex_adder2 = true /\ cg_wf ex_circ = true /\ cg_wf_tg true ex_circ = true.
+Proof. exact ex_circ_wf. Qed.
+Print Assumptions C03_circ_example_hypotheses.
+
+(* ... and on ALL its 8 inputs the generated circuits (Yao and GMW), evaluated in
+   the kernel, return eval_ssa, which is a + 1 + c, its carry, (a + 1 + c) + a. *)
+Theorem C03_circ_example_runs :
+  map (fun v => eval_circuit (circuit_of_ssa ex_circ) (input_bits [2; 1]%nat v)) ex_circ_inputs
+  = map (eval_ssa ex_circ) ex_circ_inputs /\
+  map (fun v => eval_circuit (circuit_of_ssa_gen multiplierArrayTresholds 0 true ex_circ)
+                             (input_bits [2; 1]%nat v)) ex_circ_inputs
+  = map (eval_ssa ex_circ) ex_circ_inputs /\
+  map (eval_ssa ex_circ) ex_circ_inputs
+  = [[1; 0; 1; 1]; [2; 0; 3; 2]; [3; 0; 1; 3]; [0; 1; 3; 4];
+     [2; 0; 2; 2]; [3; 0; 0; 3]; [0; 1; 2; 4]; [1; 1; 0; 5]]%N.
+Proof. exact ex_circ_runs. Qed.
+Print Assumptions C03_circ_example_runs.
+
+(* circ_ok is strictly stronger than Circuit.wf (C01's hypothesis): a second
+   write to an intermediate wire and an output wire that is an input wire are wf
+   but not circ_ok. *)
+Theorem C03_circ_ok_excludes :
+  Mpc.Circuit.Circuit.wf ex_overwrite = true /\ circ_ok ex_overwrite = false /\
+  Mpc.Circuit.Circuit.wf ex_passthrough = true /\ circ_ok ex_passthrough = false.
+Proof. exact ex_circ_ok_excludes. Qed.
+Print Assumptions C03_circ_ok_excludes.
+
+(* The decoder of the harness's listings builds Ocirc from the exported
+   instr.Circ; gate operations by the regenerated circuit.Operation values. *)
+Theorem C03_circ_decode :
+  (forall s, Mpc.Base.Sx.getZ (Mpc.Base.Sx.nthx 0 s) = compiler_ssa_Circ ->
+     i_op (dec_instr s)
+     = Ocirc (Mpc.Base.Sx.getLnat (Mpc.Base.Sx.nthx 5 s))
+             (dec_circuit (Mpc.Base.Sx.nthx 6 s) (Mpc.Base.Sx.nthx 7 s))) /\
+  map cop_of_Z [circuit_XOR; circuit_XNOR; circuit_AND; circuit_OR; circuit_INV]
+  = [Mpc.Circuit.Circuit.XOR; Mpc.Circuit.Circuit.XNOR; Mpc.Circuit.Circuit.AND;
+     Mpc.Circuit.Circuit.OR; Mpc.Circuit.Circuit.INV].
+Proof. exact circ_decode_ok. Qed.
+Print Assumptions C03_circ_decode.
 
 (* STATE INVENTORY (finite obligation on the model regenerated from the source, checked by
    computation).  The struct fields and package-level variables of the Go packages this
